@@ -697,6 +697,58 @@ def extra_box_edges(ctx, rec):
         rec.session(steps, CONCS[rep % 2])
 
 
+def extra_asym_spikes(ctx, rec):
+    """C17 (negate, reverse) / C09: spikes whose step in and step out differ in size, thresholds between the two sizes and
+    on them, both methods -- the sign of the data and the direction of the series must not matter"""
+    g = gen_qc.Gen(ctx.seed + 191, size=ctx.pick(6, 10))
+    r = g.r
+    for rep in range(ctx.pick(200, 1500)):
+        n = r.randint(3, 9)
+        x = [r.randint(-4, 4) for _ in range(n)]
+        j = r.randint(1, n - 2)
+        a, b = r.randint(1, 3), r.randint(3, 7)
+        if r.random() < 0.5:
+            a, b = b, a
+        sgn = r.choice([1, -1])
+        x[j] = x[j - 1] + sgn * a
+        x[j + 1] = x[j] - sgn * b
+        lo, hi = min(a, b), max(a, b)
+        st = [r.choice([lo - 1, lo, lo]), 1]
+        ft = r.choice([[], [hi - 1, 1], [hi, 1], [lo + hi, 2], [hi + 1, 1]])
+        c = gen_qc.mk("spike", x=x, p={"st": st, "ft": ft, "method": "differential" if rep % 3 else "average"})
+        steps = [({"kind": "base", "i": 0, "k": 0}, c)]
+        for kind in ("negate", "reverse"):
+            rel, d = g.derive(c, kind)
+            steps.append((rel, d))
+        rec.session(steps, CONCS[rep % len(CONCS)])
+
+
+def extra_tighten_dens_zero(ctx, rec):
+    """C16: density thresholds tightened to exactly 0 (from a negative value), on profiles that have inversions: a threshold
+    of zero is a threshold"""
+    g = gen_qc.Gen(ctx.seed + 193, size=ctx.pick(6, 10))
+    r = g.r
+    for rep in range(ctx.pick(100, 800)):
+        c = g.base("dens")
+        if len(c["x"]) < 2 or len(c["x"]) != len(c["z"]):
+            continue
+        c["p"]["st"] = [r.choice([-1, -2, -1]), r.choice([1, 2])]
+        c["p"]["ft"] = r.choice([[], [-3, 1], [-5, 2]])
+        steps = [({"kind": "base", "i": 0, "k": 0}, c)]
+        for k, (st, ft) in enumerate(([[0, 1], c["p"]["ft"]], [c["p"]["st"], [0, 1]] if c["p"]["ft"] else [[0, 1], [0, 1]],
+                                      [[0, 1], [-1, 2]])):
+            d = json.loads(json.dumps(c))
+            # stricter = larger: every threshold of the derived call is >= the base call's
+            if ft and c["p"]["ft"] and ft[0] * c["p"]["ft"][1] < c["p"]["ft"][0] * ft[1]:
+                continue
+            if not ft and c["p"]["ft"]:
+                continue
+            d["p"]["st"], d["p"]["ft"] = list(st), list(ft)
+            steps.append(({"kind": "tighten", "i": 0, "k": k}, d))
+        if len(steps) > 1:
+            rec.session(steps, CONCS[rep % 2])
+
+
 def long_call(g, fn, N):
     """a base call of the generator stretched to N points (its own pattern repeated, every other repetition bumped by
     one so that repetitions differ); None when the generator offers nothing suitable"""
@@ -1049,7 +1101,7 @@ PLAN = {
                     [M("spike5", ["spike"], ["reverse"], 5, big=True, budget=120000),
                      M("spike4p", ["spike"], ["perturb", "tighten"], 4, budget=60000)]),
             "random": {"fns": ["spike"], "count": (500, 8000), "kinds": ["reverse", "negate"], "size": (10, 40)},
-            "extra": [extra_missing_markers, extra_long_series, extra_big_offsets, extra_repo_tests]},
+            "extra": [extra_missing_markers, extra_long_series, extra_big_offsets, extra_repo_tests, extra_asym_spikes]},
     "C10": {"repo_fns": ["roc", "speed"], "mc": T([M("rates", ["roc", "speed"], ["shiftt"], 2, budget=12000),
                      M("roc3", ["roc"], ["perturb"], 3, budget=6000)],
                     [M("rates", ["roc", "speed"], ["shiftt"], 3, big=True, budget=150000),
@@ -1080,14 +1132,15 @@ PLAN = {
                     [M("tighten_a", ["gross", "valid", "spike", "roc", "flat", "loc"], ["tighten"], 3, big=True, budget=120000),
                      M("tighten_b", ["att", "dens", "speed", "clim"], ["tighten"], 2, budget=120000)]),
             "random": {"fns": NOPRESS, "count": (500, 8000), "kinds": ["tighten", "tighten", "tighten"], "size": (8, 24)},
-            "extra": [extra_tighten_boxes, extra_tighten_clim, extra_tighten_spike, extra_tighten_intdata]},
+            "extra": [extra_tighten_boxes, extra_tighten_clim, extra_tighten_spike, extra_tighten_intdata, extra_tighten_dens_zero]},
     "C17": {"mc": T([M("transforms", NOPRESS, ["shiftv", "negate", "shiftt", "shiftboth", "reverse"], 2, budget=14000),
                      M("locality", ["spike", "roc", "flat", "dens", "gross", "loc"], ["perturb"], 3, budget=10000)],
                     [M("transforms", NOPRESS, ["shiftv", "negate", "shiftt", "shiftboth", "reverse"], 3, budget=120000),
                      M("locality", NOPRESS, ["perturb"], 3, budget=120000)]),
             "random": {"fns": NOPRESS, "count": (400, 6000),
                        "kinds": ["shiftv", "negate", "shiftt", "shiftboth", "reverse", "perturb", "perturb"], "size": (8, 24)},
-            "extra": [extra_long_series, extra_subsecond_shift, extra_big_offsets, extra_far_origins, extra_tie_locality]},
+            "extra": [extra_long_series, extra_subsecond_shift, extra_big_offsets, extra_far_origins, extra_tie_locality,
+                      extra_asym_spikes]},
 }
 
 RULES = {
